@@ -31,6 +31,10 @@ type Engine struct {
 	lemmas     []*LemmaDecl
 	globals    []*GlobalFact
 	preds      map[string]*SpecFunc
+	immutableKeys map[string]string // component key -> declaration text
+	immutableDecls []immDecl
+	immObls    []*Obligation
+	namedTypes []types.Type
 	modsets   map[*ssa.Function]*ModSet
 	modInProgress map[*ssa.Function]bool
 	immGlobals map[*ssa.Global]int // 0 unknown, 1 immutable, 2 mutable
@@ -106,6 +110,7 @@ func LoadEngine(repoDir string, patterns []string, preludeDir string) (*Engine, 
 	}
 	e.allFuncs = ssautil.AllFunctions(prog)
 	e.computeProtected()
+	e.immObls = e.computeImmutable()
 	return e, nil
 }
 
@@ -169,6 +174,9 @@ func (e *Engine) addFile(cf *ContractFile) {
 		if l.Strings == "" {
 			l.Strings = cf.DefaultStrings
 		}
+	}
+	for _, im := range cf.Immutable {
+		e.immutableDecls = append(e.immutableDecls, immDecl{cf.Pkg, im})
 	}
 	e.lemmas = append(e.lemmas, cf.Lemmas...)
 	e.globals = append(e.globals, cf.Globals...)
@@ -1035,6 +1043,72 @@ func (e *Engine) inlinable(fn *ssa.Function) bool {
 	return n <= 120
 }
 
+type immDecl struct{ pkg, text string }
+
+// computeImmutable resolves `immutable T.f` declarations and checks them structurally: every store to T.f in the
+// repository must go to an object allocated in the same function (i.e. while it is being constructed).
+func (e *Engine) computeImmutable() []*Obligation {
+	e.immutableKeys = map[string]string{}
+	var obls []*Obligation
+	for _, d := range e.immutableDecls {
+		dot := strings.LastIndex(d.text, ".")
+		if dot < 0 {
+			continue
+		}
+		t := e.lookupType(d.pkg, d.text[:dot])
+		if t == nil {
+			obls = append(obls, &Obligation{Name: shortPkg(d.pkg) + "/immutable." + d.text, Kind: "immutable", Goal: "false", PC: "true", Structural: true, StructOK: false, Note: "unknown type", Unit: newUnit("immutable")})
+			continue
+		}
+		field := d.text[dot+1:]
+		key := "O!" + typeKey(t) + "." + field
+		ok := true
+		note := ""
+		for fn := range e.allFuncs {
+			if !e.inRepo(fn) {
+				continue
+			}
+			for _, b := range fn.Blocks {
+				for _, ins := range b.Instrs {
+					st, isStore := ins.(*ssa.Store)
+					if !isStore {
+						continue
+					}
+					fa, isFA := st.Addr.(*ssa.FieldAddr)
+					if !isFA {
+						continue
+					}
+					ot := fa.X.Type().Underlying().(*types.Pointer).Elem()
+					if !types.Identical(ot, t) {
+						continue
+					}
+					if ot.Underlying().(*types.Struct).Field(fa.Field).Name() != field {
+						continue
+					}
+					if !freshRooted(fa.X, nil, 0) {
+						ok = false
+						note = "assigned in " + fn.String() + " on an object that is not under construction"
+					}
+				}
+			}
+		}
+		if ok {
+			e.immutableKeys[key] = d.text
+		}
+		obls = append(obls, &Obligation{Name: shortPkg(d.pkg) + "/immutable." + d.text, Kind: "immutable", Func: shortPkg(d.pkg), Goal: "true", PC: "true", Structural: true, StructOK: ok, Note: note, Desc: "field " + d.text + " is assigned only while its object is being constructed (scan of every store in the repository)", Unit: newUnit("immutable")})
+	}
+	return obls
+}
+
+func (e *Engine) immutableKey(key string) bool {
+	for k := range e.immutableKeys {
+		if key == k || strings.HasPrefix(key, k+".") {
+			return true
+		}
+	}
+	return false
+}
+
 func (e *Engine) computeProtected() {
 	for _, inv := range e.invariants {
 		if inv.Guard == "" {
@@ -1056,6 +1130,8 @@ func (e *Engine) protectKeys(inv *InvariantDecl) []string {
 	for _, p := range inv.Protects {
 		p = strings.TrimSpace(p)
 		switch {
+		case strings.HasPrefix(p, "monotone "):
+			// handled at Lock (see monitorEnter)
 		case strings.Contains(p, "!"):
 			out = append(out, p)
 		case strings.HasPrefix(p, "elems(") && strings.HasSuffix(p, ")"):
@@ -1122,4 +1198,26 @@ func (e *Engine) monitorProtected(key string) bool {
 		}
 	}
 	return false
+}
+
+// repoNamedTypes: all named (non-interface) types declared in packages of this repository.
+func (e *Engine) repoNamedTypes() []types.Type {
+	if e.namedTypes != nil {
+		return e.namedTypes
+	}
+	for path, p := range e.pkgs {
+		if !strings.HasPrefix(path, modulePath) {
+			continue
+		}
+		sc := p.Types.Scope()
+		for _, name := range sc.Names() {
+			if tn, ok := sc.Lookup(name).(*types.TypeName); ok {
+				if _, isIface := tn.Type().Underlying().(*types.Interface); !isIface {
+					e.namedTypes = append(e.namedTypes, tn.Type())
+				}
+			}
+		}
+	}
+	sort.Slice(e.namedTypes, func(i, j int) bool { return typeKey(e.namedTypes[i]) < typeKey(e.namedTypes[j]) })
+	return e.namedTypes
 }
